@@ -184,6 +184,14 @@ def write_bytes(kind, payload, bpm, rep):
             ok = out.write_Bar(p, mk_bar(payload), bpm, rep)
         elif kind == "track":
             ok = out.write_Track(p, mk_track(payload), bpm, rep)
+        elif kind == "track_ctor":
+            # what write_Track does, by hand, the filled MidiTrack HANDED TO THE CONSTRUCTOR: MidiFile(tracks) writes those tracks
+            from mingus.midi.midi_track import MidiTrack
+            t = MidiTrack(bpm)
+            tr = mk_track(payload)
+            for _ in range(rep + 1):
+                t.play_Track(tr)
+            ok = out.MidiFile([t]).write_file(p)
         else:
             ok = out.write_Composition(p, mk_composition(payload), bpm, rep)
         if not ok:
